@@ -107,6 +107,7 @@ pub fn menu(s: &Structure) -> Vec<Op> {
             v.push(Op::Withdraw { sender: P::U(u), batch: *id });
         }
         v.push(Op::ReceiveUnstaked { sender: P::HookStaker, batch: *id, funds: Funds::Native });
+        v.push(Op::ReceiveUnstaked { sender: P::StakerAcct, batch: *id, funds: Funds::Native });
     }
     v.push(Op::Withdraw { sender: P::Admin, batch: base + 1 });
     v.push(Op::ReceiveUnstaked { sender: P::HookCollector, batch: base + 1, funds: Funds::Native });
@@ -118,6 +119,9 @@ pub fn menu(s: &Structure) -> Vec<Op> {
     v.push(Op::Rewards { sender: P::HookCollector, funds: Funds::Native, faults: vec![1] });
     v.push(Op::Rewards { sender: P::HookCollector, funds: Funds::Native, faults: vec![2] });
     v.push(Op::Rewards { sender: P::HookStaker, funds: Funds::Native, faults: vec![] });
+    // the plain native-chain accounts themselves (valid protocol-chain senders when both chains share a prefix)
+    v.push(Op::Rewards { sender: P::CollectorAcct, funds: Funds::Native, faults: vec![] });
+    v.push(Op::Rewards { sender: P::StakerAcct, funds: Funds::Native, faults: vec![] });
     v.push(Op::Rewards { sender: P::U(0), funds: Funds::Native, faults: vec![] });
     v.push(Op::Rewards { sender: P::Admin, funds: Funds::Native, faults: vec![] });
     v.push(Op::Rewards { sender: P::HookCollector, funds: Funds::Lst, faults: vec![] });
